@@ -9,6 +9,7 @@ deterministic adversarial generated fonts (growth bomb, recursion ring, deep nes
 cursive chains, 70000 marks, morx insertion loop).  A process abort or time-out is attributed by the
 trace file."""
 import json
+import re
 
 import bufcorr
 import common as C
@@ -77,6 +78,27 @@ def run(chk):
         crash_search(chk, binc, "overflow-checked", 40000 if thorough else 5000, fails)
     else:
         broken.append("checked-build-failed: " + blogc[-400:])
+    # known findings, decided on the call site / the input (see KNOWN_FINDINGS.txt):
+    #  - panics inside the ttf-parser dependency that exist only in checked builds, listed by (file, kind)
+    #  - as_glyph's debug_assert when the caller set a not-found-variation-selector glyph above 0xFFFF
+    sites = set()
+    try:
+        sites = set((x["file"], x["panic"]) for x in json.load(open(C.VERIF + "/corpus/C01-ttf-parser-checked-build.json"))["sites"])
+    except Exception:
+        pass
+    rest = []
+    for f in fails:
+        kind = str(f.get("kind"))
+        m = re.match(r"panic-Dep-ttf-parser-(\w+)@(\S+)$", kind)
+        nf = re.search(r"nfvs=(\d+)", str(f.get("req", "")))
+        if m and f.get("build") == "overflow-checked" and (m.group(2), m.group(1)) in sites and chk.is_known("ttf_parser_checked_build"):
+            chk.known_finding("ttf_parser_checked_build", "%s inside ttf-parser %s (checked build only)" % (m.group(1), m.group(2)))
+        elif (kind == "panic-Assert@buffer.rs" and f.get("build") == "overflow-checked" and nf and int(nf.group(1)) > 0xFFFF
+              and chk.is_known("not_found_vs_glyph_unchecked")):
+            chk.known_finding("not_found_vs_glyph_unchecked", "serialize after set_not_found_variation_selector_glyph(g > 0xFFFF): as_glyph debug_assert (checked build only)")
+        else:
+            rest.append(f)
+    fails = rest
     chk.sample({"adversarial": chk.notes.get("adversarial_cases_release", [])[:4]})
     chk.note("correspondence_disagreements", len(dis))
     for f in fails[:3]:
